@@ -13,6 +13,7 @@ class Prop:
     id = None
     title = ""
     lean_module = None          # Stgutg.Props.Cxx
+    extra_modules = []          # further modules holding obligations of this property
     theorems = []               # obligations: fully qualified theorem names
     gen = []                    # translators to run first
     domains = []                # list of Domain
@@ -123,12 +124,17 @@ def stage_build(ctx, prop):
             ok_all = False
         ctx.obligations = len(prop.theorems)
         if prop.lean_module:
-            ok, out = core.lake_build([prop.lean_module])
-            if not ok:
-                ctx.proof_breaks.append("lake build %s failed:\n%s" % (prop.lean_module, out[-3000:]))
-                ok_all = False
-            else:
-                res = core.audit(prop.lean_module, prop.theorems)
+            mods = [prop.lean_module] + list(prop.extra_modules)
+            built = []
+            for m in mods:
+                ok, out = core.lake_build([m])
+                if not ok:
+                    ctx.proof_breaks.append("lake build %s failed:\n%s" % (m, out[-3000:]))
+                    ok_all = False
+                else:
+                    built.append(m)
+            if built:
+                res = core.audit(built, prop.theorems)
                 for t, (st, detail) in res.items():
                     if st == "ok":
                         ctx.discharged += 1
@@ -137,9 +143,10 @@ def stage_build(ctx, prop):
                     else:
                         ctx.proof_breaks.append("theorem %s not found / not checked: %s" % (t, detail))
                 if ctx.tier == "thorough":
-                    ok, out = core.leanchecker(prop.lean_module)
-                    if not ok:
-                        ctx.proof_breaks.append("leanchecker rejected %s: %s" % (prop.lean_module, out))
+                    for m in built:
+                        ok, out = core.leanchecker(m)
+                        if not ok:
+                            ctx.proof_breaks.append("leanchecker rejected %s: %s" % (m, out))
         built = set()
         for d in prop.domains:
             name = d.binary + ("-" + d.tags if d.tags else "") + ("-race" if d.race else "")
